@@ -148,15 +148,22 @@ static void gen_shape(const char *shape, size_t n, long param, uint64_t *xs) {
         for (size_t i = 0; i < n; i++) {
             xs[i] = m + rng_u64() % (top + 1);
         }
-        xs[0] = m;
-        if (n > 1) {
-            /* most values sit at min+top so that the percentile lands there */
-            for (size_t i = 1; i < n; i++) {
-                if (rng_u64() % 4) {
-                    xs[i] = m + top;
-                }
+        /* most values sit at min+top so that the percentile lands there; the
+         * minimum itself sits first (param / 3 == 0), last (1) or in the
+         * middle (2), so that the marker-valued offset occurs at every
+         * position including index 0 and n-1 */
+        for (size_t i = 0; i < n; i++) {
+            if (rng_u64() % 4) {
+                xs[i] = m + top;
             }
+        }
+        if (n > 1) {
+            size_t minpos = (param / 3) % 3 == 0 ? 0 : (param / 3) % 3 == 1 ? n - 1 : n / 2;
+            xs[0] = m + top;
             xs[n - 1] = m + top;
+            xs[minpos] = m;
+        } else {
+            xs[0] = m;
         }
     } else if (!strcmp(shape, "outfirst") || !strcmp(shape, "outlast")) {
         uint64_t b = rng_u64() % 100000;
